@@ -865,7 +865,7 @@ fn mutate_tokens(ts: &[Tok], rng: &mut Prng) -> (Vec<Tok>, &'static str) {
             let idx: Vec<usize> = (0..v.len()).filter(|&k| matches!(&v[k], Tok::Word(w) if w.chars().last().map_or(false, |c| c.is_ascii_digit()))).collect();
             if let Some(&k) = idx.get(rng.below(idx.len().max(1))) {
                 if let Tok::Word(w) = &v[k] {
-                    let pre = *rng.pick(&["-", "+", "--", "+-", "-+", "++", "0", "00", "1.", ".", "18446744073709551616", "-0"]);
+                    let pre = *rng.pick(&["-", "+", "--", "+-", "-+", "++", "0", "00", "1.", ".", "18446744073709551616", "1_", "-0"]);
                     v[k] = Tok::Word(format!("{pre}{w}"));
                 }
             }
